@@ -24,7 +24,7 @@ from . import c05
 
 LEVEL = "model_checking"
 
-CLIENTS = ["A", "B", "C", "D", "F", "G"]
+CLIENTS = ["A", "B", "C", "D", "F", "G", "K"]
 PROGRAMS = {
     "P1": ["build", "render"],
     "P2": ["build", "render", "render"],
@@ -103,11 +103,11 @@ def materials(work: Path):
     d.write_text(
         "\n".join(
             [
-                "@format:idx,R,R,R,P,P,P,P,Tmin,Tmax,rate",
+                "@format:idx,R,R,P,P,Tmin,Tmax,rate",
                 "@common: user_crate",
                 "@var: foo = Tgas*2.0",
-                "1,H,H,,H2,,,,NONE,NONE,1.0d-10*(T32)**(-0.5)*exp(-3.0d1*invT)",
-                "2,H2,,,H,H,,,10,1d4,user_crate*2d0*foo",
+                "1,H,H,H2,,NONE,NONE,1.0d-10*(T32)**(-0.5)*exp(-3.0d1*invT)",
+                "2,H2,,H,H,10,1d4,user_crate*2d0*foo",
             ]
         )
         + "\n"
@@ -124,7 +124,19 @@ def materials(work: Path):
         )
         + "\n"
     )
-    return {"A": str(a), "B": str(bdir), "C": str(c), "D": str(d), "G": str(g)}
+    # K: a second KROME file that relies on the *default* column layout (no @format) and has its own @common
+    k = work / "k.krome"
+    k.write_text(
+        "\n".join(
+            [
+                "@common: user_other",
+                "1,H,H+,,H2+,,,,NONE,NONE,1.0d-10",
+                "2,H2+,H,,H2,H+,,,NONE,NONE,6.4d-10*user_other",
+            ]
+        )
+        + "\n"
+    )
+    return {"A": str(a), "B": str(bdir), "C": str(c), "D": str(d), "G": str(g), "K": str(k)}
 
 
 def client_build(c, mat):
@@ -145,6 +157,8 @@ def client_build(c, mat):
         )
     if c == "D":
         return Network(filelist=mat["D"], fileformats="krome")
+    if c == "K":
+        return Network(filelist=mat["K"], fileformats="krome")
     if c == "G":
         return Network(filelist=mat["G"], fileformats="kida", elements=["E", "H", "HE", "C", "O"], pseudo_elements=["CR", "Photon"])
     if c == "F":
@@ -165,7 +179,7 @@ def client_edit(c, net):
     from naunet.reactions.reaction import Reaction
     from naunet.reactiontype import ReactionType
 
-    extra = {"G": (["HE", "H+"], ["HE+", "H"]), "A": (["C2", "H"], ["CH", "C"]), "C": (["H2O", "CRP"], ["OH", "H"]), "D": (["H", "H2"], ["H2", "H"]), "F": (["H2", "CR"], ["H", "H"])}[c]
+    extra = {"G": (["HE", "H+"], ["HE+", "H"]), "A": (["C2", "H"], ["CH", "C"]), "C": (["H2O", "CRP"], ["OH", "H"]), "D": (["H", "H2"], ["H2", "H"]), "K": (["H2", "H+"], ["H2+", "H"]), "F": (["H2", "CR"], ["H", "H"])}[c]
     t = ReactionType.GAS_COSMICRAY if ("CR" in extra[0] or "CRP" in extra[0]) else ReactionType.GAS_TWOBODY
     net.add_reaction(Reaction(list(extra[0]), list(extra[1]), -1.0, -1.0, 1e-10, 0.0, 0.0, t, 77))
     net.allowed_species = [s.name for s in sorted(net.species, key=lambda s: s.name)]
@@ -411,7 +425,7 @@ def run(ctx):
         "scheduling points are public API call boundaries (the library is single-threaded); every schedule runs in a fresh process forked from a parent that never touched a naunet global",
         "hash = sha256 over include/ src/ python/ with the project name masked (the only embedded date lives in the top-level CMakeLists.txt, outside the hashed trees)",
         "reference hash of a client = rendering it alone in fresh processes under several PYTHONHASHSEED values, twice in a row; these must agree among themselves",
-        "clients: A KIDA/default lists; B UCLCHEM project through RenderCommand (upper-case elements, replacement table, binding energy and yield of #CO); C Leeds with custom element lists and prefix G; D KROME with @var/@common; F API-built ice network reading #CO's binding energy; G KIDA file with an upper-case element list and no replacement table",
+        "clients: A KIDA/default lists; B UCLCHEM project through RenderCommand (upper-case elements, replacement table, binding energy and yield of #CO); C Leeds with custom element lists and prefix G; D KROME with its own @format/@var/@common; K a second KROME file relying on the default column layout with another @common; F API-built ice network reading #CO's binding energy; G KIDA file with an upper-case element list and no replacement table",
     ]
     return {
         "states": nsched + nexec,
